@@ -11,9 +11,9 @@ def make_other(kind, a, md):
     if kind.startswith('merge'):
         oids = [a.obs_ids[0], 'new-o']
         sids = [a.samp_ids[-1], 'new-s']
-    elif kind == 'concat:sample':
+    elif kind.startswith('concat') and kind.endswith(':sample'):
         oids, sids = list(a.obs_ids)[::-1], ['c1', 'c2']
-    elif kind == 'concat:observation':
+    elif kind.startswith('concat') and kind.endswith(':observation'):
         oids, sids = ['c1', 'c2'], list(a.samp_ids)[::-1]
     elif kind == 'align_to-already-aligned':
         oids, sids = list(a.obs_ids), list(a.samp_ids)
@@ -38,6 +38,15 @@ def accessor_agreement(label, t, nnz_first, **sig):
         fail(label + ':accessor-raised', f"{type(e).__name__}: {e}"[:200], **sig)
 
 
+def _vec_claims(label, got, want, sig):
+    """term-wise equalities of a vector an accessor returned with the expected one; a wrong length is a finding of its own"""
+    got = list(got)
+    if len(got) != len(want):
+        fail(label + ':vector-length', f"{len(got)} entries, expected {len(want)}", **sig)
+        return []
+    return [eq(x, y) for x, y in zip(got, want)]
+
+
 def _accessor_agreement(label, t, nnz_first, **sig):
     """every accessor describes the same dense term matrix D (read from the representation)"""
     import numpy as np
@@ -53,9 +62,9 @@ def _accessor_agreement(label, t, nnz_first, **sig):
     claims = []
     if nr and nc:
         for i, o in enumerate(oi):
-            claims += [eq(x, y) for x, y in zip(list(t.data(o, axis='observation')), D[i])]
+            claims += _vec_claims(label + ':data', t.data(o, axis='observation'), D[i], sig)
         for j, s_ in enumerate(si):
-            claims += [eq(x, y) for x, y in zip(list(t.data(s_, axis='sample')), [D[i][j] for i in range(nr)])]
+            claims += _vec_claims(label + ':data', t.data(s_, axis='sample'), [D[i][j] for i in range(nr)], sig)
         prove(label + ':data', and_(*claims), **sig)
         claims = []
         for i, o in enumerate(oi):
@@ -70,7 +79,7 @@ def _accessor_agreement(label, t, nnz_first, **sig):
                 if str(id_) != ids[k]:
                     fail(label + ':iter-id', f"{id_} at {k}", **sig)
                 want = D[k] if ax == 'observation' else [D[i][k] for i in range(nr)]
-                claims += [eq(x, y) for x, y in zip(list(vec), want)]
+                claims += _vec_claims(label + ':iter', vec, want, sig)
                 mdx = t.metadata(axis=ax)
                 if (md is None) != (mdx is None) or (md is not None and md is not mdx[k]):
                     fail(label + ':iter-md', f"{ax} {k}", **sig)
@@ -84,7 +93,7 @@ def _accessor_agreement(label, t, nnz_first, **sig):
             fail(label + ':pairwise-count', str(len(pairs)), **sig)
         for (d1, i1, m1), (d2, i2, m2) in pairs:
             j1, j2 = si.index(str(i1)), si.index(str(i2))
-            claims += [eq(x, D[i][j1]) for i, x in enumerate(list(d1))] + [eq(x, D[i][j2]) for i, x in enumerate(list(d2))]
+            claims += _vec_claims(label + ':pairwise', d1, [D[i][j1] for i in range(nr)], sig) + _vec_claims(label + ':pairwise', d2, [D[i][j2] for i in range(nr)], sig)
     prove(label + ':pairwise', and_(*claims), **sig)
     claims = []
     tot = ssum(v for r in D for v in r)
